@@ -314,6 +314,118 @@ theorem rounding_meets_hypotheses_dec (k : Nat) (objs : List Obj) (bs : List Blo
     HypAccept (objs.map (roundObj (roundDec k))) (bs.map (roundBlock (roundDec k))) :=
   rounding_meets_hypotheses _ _ (roundDec_rounding k) objs bs h
 
+/-! ### Mixed rounding conventions (nearest / truncation / rounding up, chosen per value)
+
+`rounding_meets_hypotheses` needs one monotone rounding function.  Different tools round
+differently, and one document may mix conventions; then every written value is still within
+`δ` (= the unit for floor/ceil, half a unit for nearest) of the exact one.  That alone suffices
+when the exact durations exceed `2δ`. -/
+
+/-- `b` is the timed block `a` with rtime and duration each moved by at most `δ`
+(type, jumpPosition and interpolationLength are unconstrained). -/
+def Near (δ : Rat) (a b : Block) : Prop :=
+  Timed a ∧ Timed b ∧ b.r - a.r ≤ δ ∧ a.r - b.r ≤ δ ∧ b.d - a.d ≤ δ ∧ a.d - b.d ≤ δ
+
+/-- `o'` is `o` with its duration (if any) moved by at most `δ`; the start is unconstrained. -/
+def NearObj (δ : Rat) (o o' : Obj) : Prop :=
+  match o.duration, o'.duration with
+  | some D, some D' => D' - D ≤ δ ∧ D - D' ≤ δ
+  | none, none => True
+  | _, _ => False
+
+def RelO (δ : Rat) : List Obj → List Obj → Prop
+  | [], [] => True
+  | o :: os, o' :: os' => NearObj δ o o' ∧ RelO δ os os'
+  | _, _ => False
+
+theorem relO_back (δ : Rat) : ∀ {objs objs' : List Obj}, RelO δ objs objs' →
+    ∀ o' ∈ objs', ∀ D', o'.duration = some D' → ∃ o ∈ objs, ∃ D, o.duration = some D ∧ D - D' ≤ δ
+  | [], [], _, o', ho', _, _ => by simp at ho'
+  | _ :: _, [], h, _, _, _, _ => h.elim
+  | [], _ :: _, h, _, _, _, _ => h.elim
+  | o :: os, p :: ps, h, o', ho', D', hD' => by
+    simp only [List.mem_cons] at ho'
+    rcases ho' with rfl | ho'
+    · have hn := h.1
+      simp only [NearObj, hD'] at hn
+      cases hd : o.duration with
+      | none => simp [hd] at hn
+      | some D => simp only [hd] at hn; exact ⟨o, by simp, D, hd, hn.2⟩
+    · obtain ⟨o, ho, D, hD, hle⟩ := relO_back δ h.2 o' ho' D' hD'
+      exact ⟨o, by simp [ho], D, hD, hle⟩
+
+theorem near_allTimed (δ : Rat) : ∀ {bs bs' : List Block}, RelP (Near δ) bs bs' → AllTimed bs'
+  | [], [], _ => by simp [AllTimed]
+  | _ :: _, [], h => h.elim
+  | [], _ :: _, h => h.elim
+  | a :: as, b :: bs, h => by
+    have ih := near_allTimed δ h.2
+    intro x hx
+    simp only [List.mem_cons] at hx
+    rcases hx with rfl | hx
+    · exact h.1.2.1
+    · exact ih x hx
+
+theorem near_mono (δ : Rat) : ∀ {bs bs' : List Block}, RelP (Near δ) bs bs' → Contig bs →
+    (∀ b ∈ bs, 2 * δ < b.d) → Mono bs'
+  | [], [], _, _, _ => trivial
+  | _ :: _, [], h, _, _ => h.elim
+  | [], _ :: _, h, _, _ => h.elim
+  | [_], [_], _, _, _ => trivial
+  | [_], _ :: _ :: _, h, _, _ => h.2.elim
+  | _ :: _ :: _, [_], h, _, _ => h.2.elim
+  | a :: a' :: as, b :: b' :: bs, h, hc, hl => by
+    refine ⟨?_, near_mono δ h.2 hc.2 (fun x hx => hl x (by simp [hx]))⟩
+    obtain ⟨_, _, h1, h2, _, _⟩ := h.1
+    obtain ⟨_, _, h3, h4, _, _⟩ := h.2.1
+    have := hc.1; have := hl a (by simp)
+    grind
+
+theorem near_last (δ : Rat) (hδ : 0 ≤ δ) (D D' : Rat) (hD : D - D' ≤ δ) :
+    ∀ {bs bs' : List Block}, RelP (Near δ) bs bs' → (∀ b ∈ bs, 2 * δ < b.d) → Within D bs →
+      LastBelow D' bs'
+  | [], [], _, _, _ => trivial
+  | _ :: _, [], h, _, _ => h.elim
+  | [], _ :: _, h, _, _ => h.elim
+  | [a], [b], h, hl, hw => by
+    obtain ⟨ta, _, h1, h2, h3, h4⟩ := h.1
+    have := hw a (by simp) ta; have := hl a (by simp)
+    simp only [LastBelow]; grind
+  | [_], _ :: _ :: _, h, _, _ => h.2.elim
+  | _ :: _ :: _, [_], h, _, _ => h.2.elim
+  | _ :: a' :: as, _ :: b' :: bs, h, hl, hw =>
+    near_last δ hδ D D' hD (bs := a' :: as) (bs' := b' :: bs) h.2 (fun x hx => hl x (by simp [hx]))
+      (fun x hx => hw x (by simp [hx]))
+
+theorem near_lastNonneg (δ : Rat) (hδ : 0 ≤ δ) :
+    ∀ {bs bs' : List Block}, RelP (Near δ) bs bs' → (∀ b ∈ bs, 2 * δ < b.d) → LastNonneg bs'
+  | [], [], _, _ => trivial
+  | _ :: _, [], h, _ => h.elim
+  | [], _ :: _, h, _ => h.elim
+  | [a], [b], h, hl => by
+    obtain ⟨_, _, h1, h2, h3, h4⟩ := h.1
+    have := hl a (by simp)
+    simp only [LastNonneg]; grind
+  | [_], _ :: _ :: _, h, _ => h.2.elim
+  | _ :: _ :: _, [_], h, _ => h.2.elim
+  | _ :: a' :: as, _ :: b' :: bs, h, hl =>
+    near_lastNonneg δ hδ (bs := a' :: as) (bs' := b' :: bs) h.2 (fun x hx => hl x (by simp [hx]))
+
+/-- **Any perturbation by at most `δ` per value lands inside the hypotheses** when the exact
+timeline is contiguous, inside its objects and has durations above `2δ` — whatever mixture of
+nearest / floor / ceil produced the written values (`δ` = one unit covers all three). -/
+theorem perturbation_meets_hypotheses (δ : Rat) (hδ : 0 ≤ δ) (objs objs' : List Obj)
+    (bs bs' : List Block) (hb : RelP (Near δ) bs bs') (ho : RelO δ objs objs') (hc : Contig bs)
+    (hlong : ∀ b ∈ bs, 2 * δ < b.d) (hin : ∀ o ∈ objs, ∀ D, o.duration = some D → Within D bs) :
+    Hyp objs' bs' ∧ HypAccept objs' bs' := by
+  have tm := near_allTimed δ hb
+  refine ⟨Hyp.timed tm (near_mono δ hb hc hlong) ?_, near_lastNonneg δ hδ hb hlong, ?_⟩
+  · intro o' ho' D' hD'
+    obtain ⟨o, hmem, D, hD, hle⟩ := relO_back δ ho o' ho' D' hD'
+    exact near_last δ hδ D D' hle hb hlong (hin o hmem D hD)
+  · intro ⟨x, hx, hu⟩
+    exact (timed_not_untimed (tm x hx) hu).elim
+
 /-! ## Excluded points (the hypotheses cannot be dropped) and non-vacuity -/
 
 deriving instance DecidableEq for Except
@@ -397,5 +509,13 @@ example : ExactValid (q 1 100) [⟨none, some 1⟩]
   · intro o ho D hD b hb _
     simp at ho; subst ho; simp at hD; subst hD
     simp [ob] at hb; rcases hb with rfl | rfl | rfl <;> simp [Block.r, Block.d] <;> decide +kernel
+
+/-- Non-vacuity of `Near`: thirds of a second written with mixed conventions (second rtime
+rounded up, its duration truncated; third rtime truncated, its duration rounded up). -/
+example : RelP (Near (q 1 100))
+    [ob (some 0) (some (q 1 3)), ob (some (q 1 3)) (some (q 1 3)), ob (some (q 2 3)) (some (q 1 3))]
+    [ob (some 0) (some (q 33 100)), ob (some (q 34 100)) (some (q 33 100)) true (some (q 34 100)),
+     ob (some (q 66 100)) (some (q 34 100))] := by
+  refine ⟨?_, ?_, ?_, trivial⟩ <;> simp [Near, ob, Timed, Block.r, Block.d] <;> decide +kernel
 
 end Earverif.TimingFix
